@@ -341,7 +341,7 @@ def sim_volume(model, grid, tape, safe=False, dt=None, v0=1.0, volspec=None, vol
             ref.lambda_zero_seen = True
             proposed = grid[idx]
             fired = False
-            rule_step = True
+            rule_step = False        # dt rules follow the growth clock (one per elapsed dt), not the grid landings
         else:
             rec = ref.expect(tape, "E")
             ref.check_E(rec, Lam, "wait")
